@@ -252,6 +252,11 @@ func c06(c *Ctx) {
 			k2 := types.EncryptionKey{KeyType: et, KeyValue: append([]byte{}, key.KeyValue...)}
 			k2.KeyValue[c.R.Intn(len(k2.KeyValue))] ^= 0x20
 			reject("key-bitflip", ct, k2, usage, true)
+			// keys of another length than the etype's: the genuine key followed by zero bytes (HMAC pads short keys with
+			// zeros, so a decryption that never looks at the length treats it as the same key), the key without its last byte
+			reject("key-length", ct, types.EncryptionKey{KeyType: et, KeyValue: append(append([]byte{}, key.KeyValue...), 0)}, usage, true)
+			reject("key-length", ct, types.EncryptionKey{KeyType: et, KeyValue: append(append([]byte{}, key.KeyValue...), 0, 0, 0, 0)}, usage, false)
+			reject("key-length", ct, types.EncryptionKey{KeyType: et, KeyValue: append([]byte{}, key.KeyValue[:len(key.KeyValue)-1]...)}, usage, true)
 			// the genuine one is accepted
 			o, _ := obsDecrypt(ct, key, usage)
 			c.Case("decrypt", jin(ct, key, usage), o)
